@@ -69,7 +69,26 @@ def main():
     for c in combs:
         for (d0, e0), (d1, e1) in itertools.product(fam(0), fam(1)):
             terms.append(('TM', '%s(%s,%s)' % (c, d0, d1), 'trompeloeil::%s(%s, %s)' % (c, e0, e1)))
+    # depth 3 (thorough tier): combinators of combinators of combinators, negations at every level, pointers to nested terms
+    deep = []
+    for c1, c2, c3 in itertools.product(combs, repeat=3):
+        for (d0, e0), (d1, e1) in itertools.product(fam(0), fam(1)):
+            deep.append(('T3', '%s(%s(%s(%s,%s),ne($2)),$2)' % (c1, c2, c3, d0, d1), 'trompeloeil::%s(trompeloeil::%s(trompeloeil::%s(%s, %s), trompeloeil::ne(c)), c)' % (c1, c2, c3, e0, e1)))
+    for c1, c2 in itertools.product(combs, repeat=2):
+        for (d0, e0), (d1, e1) in itertools.product(fam(0), fam(1)):
+            deep.append(('T3', '!%s(!%s(%s,%s),geT($2))' % (c1, c2, d0, d1), '!trompeloeil::%s(!trompeloeil::%s(%s, %s), trompeloeil::ge<int>(c))' % (c1, c2, e0, e1)))
+            deep.append(('TP', '!%s(%s(%s,%s),$0)' % (c1, c2, d0, d1), '!trompeloeil::%s(trompeloeil::%s(%s, %s), a)' % (c1, c2, e0, e1)))
+            deep.append(('TM', '%s(!%s(%s,%s),$1)' % (c1, c2, d0, d1), 'trompeloeil::%s(!trompeloeil::%s(%s, %s), b)' % (c1, c2, e0, e1)))
     names = []
+    NDEEP = 8
+    for k in range(NDEEP):
+        fn = os.path.join(out, 'c10_deep_%d.cpp' % k)
+        names.append(fn)
+        with open(fn, 'w') as f:
+            f.write('// generated by gen/gen_c10.py - do not edit\n#include "c10_scalar.hpp"\nvoid c10_deep_%d() {\n' % k)
+            for (m, d, e) in deep[k::NDEEP]:
+                f.write('  %s("%s", %s)\n' % (m, d, e))
+            f.write('}\n')
     for k in range(NCHUNK):
         fn = os.path.join(out, 'c10_chunk_%d.cpp' % k)
         names.append(fn)
@@ -87,7 +106,13 @@ def main():
         f.write('void c10_all_chunks() {\n')
         for k in range(NCHUNK):
             f.write('  c10_chunk_%d();\n' % k)
-        f.write('}\nextern const long c10_generated_terms = %d;\n' % len(terms))
+        f.write('}\n')
+        for k in range(NDEEP):
+            f.write('void c10_deep_%d();\n' % k)
+        f.write('void c10_deep_chunks() {\n')
+        for k in range(NDEEP):
+            f.write('  c10_deep_%d();\n' % k)
+        f.write('}\nextern const long c10_generated_terms = %d;\nextern const long c10_generated_deep_terms = %d;\n' % (len(terms), len(deep)))
     print(' '.join(names))
 
 
